@@ -698,7 +698,9 @@ impl<L: Lay> LayHarness<L> {
         adds.sort_unstable();
         adds.dedup();
         let mut count = 0u64;
-        for behaviour in 0..2 {
+        // allocator behaviours: 0 serve (refusing only absurd sizes), 1 refuse the next request,
+        // 2 serve and grant more than was asked for (size-class allocators do; the contract allows it)
+        for behaviour in 0..3 {
             for &add in &adds {
                 let mut s = rebuild();
                 let before = s.dump();
@@ -709,6 +711,7 @@ impl<L: Lay> LayHarness<L> {
                     e.log_requests = true;
                     e.refuse_above = Some(1 << 20);
                     e.refuse_at = if behaviour == 1 { Some(0) } else { None };
+                    e.over_return = behaviour == 2;
                 });
                 let r = env::catch(|| match &mut s.c {
                     C::Set(c) => c.try_reserve(add),
@@ -719,9 +722,10 @@ impl<L: Lay> LayHarness<L> {
                     e.log_requests = false;
                     e.refuse_above = None;
                     e.refuse_at = None;
+                    e.over_return = false;
                     (std::mem::take(&mut e.refused), std::mem::take(&mut e.requests))
                 });
-                let what = format!("{:?}<{}>::try_reserve({add}) (len {len}, capacity {cap})", self.coll, L::NAME);
+                let what = format!("{:?}<{}>::try_reserve({add}) (len {len}, capacity {cap}{})", self.coll, L::NAME, if behaviour == 2 { ", allocator granting more than requested" } else { "" });
                 let r = match r {
                     Ok(r) => r,
                     Err(m) => return Err(format!("{what} panicked: {m}")),
